@@ -68,10 +68,13 @@ PROPS = {
         harnesses=[
             dict(run=B + "VerifC08Floor", quick=dict(ops=1, keys=1, val9=0, compactions=2), thorough=dict(ops=2, keys=1, val9=0, compactions=3, interleave=1),
                  covers=["accepted", "older-request-accepted", "refused", "refused-limited", "refused-stream", "served", "done"]),
+            dict(run=B + "VerifC08Race", quick=dict(preempt=1), thorough=dict(preempt=2), covers=["refused", "served", "done"]),
         ],
-        bounds=dict(quick="1-write history, 2 compaction requests with unconstrained 64-bit revisions (increasing, repeated, decreasing, 0, above current), then an unlimited / limited / streamed range read at any revision",
-                    thorough="2-write history, 3 requests interleaved with writes"),
-        outside="Count (always served at the current revision)",
+        bounds=dict(quick="1-write history, 2 compaction requests with unconstrained 64-bit revisions (increasing, repeated, decreasing, 0, above current), then an unlimited / limited / streamed range read at any revision; "
+                          "race: 3 fixed key histories (tombstone, two versions, re-created) with symbolic values, one unlimited / paginated / streamed read at any older revision r racing one compaction at any c > r, "
+                          "every interleaving of their store operations with at most 1 deviation from the default scheduler, engine with and without snapshot reads",
+                    thorough="2-write history, 3 requests interleaved with writes; race with at most 2 scheduling deviations"),
+        outside="Count (always served at the current revision); more than one compaction racing a read",
     ),
     "C13": dict(
         harnesses=[
@@ -116,6 +119,8 @@ PROPS = {
                  covers=["unknown-applied", "unknown-lost", "repair-rewrites", "compaction-capped", "done"]),
             dict(run=B + "VerifC09Uncertain", name="C09_repairfault", quick=dict(ops=1, keys=1, val9=0, foreign=0, repairfaults=1, native_tick_ms=1300), thorough=dict(ops=1, keys=1, val9=0, foreign=1, repairfaults=1, native_tick_ms=1300),
                  covers=["unknown-applied", "repair-rewrites", "done"]),
+            dict(run=B + "VerifC09CompactRace", name="C09_compactrace", quick=dict(ops=1, keys=1, val9=0, preempt=1), thorough=dict(ops=1, keys=1, val9=0, preempt=2),
+                 covers=["unknown-outcome", "compaction-capped", "done"]),
         ],
         bounds=dict(quick="1-write history; one create/update/delete (symbolic expectation) whose commit is answered 'unknown' in both variants; 1 further symbolic write to the same key; optional Compact(0) while unresolved; the repair loop with symbolic elapsed time; separately a fault of any kind on the repair write itself",
                     thorough="2 keys, 2 further writes; repair fault together with a further write"),
